@@ -35,7 +35,7 @@ def main():
             if ap.returncode != 0:
                 res = {'exit': None, 'note': 'patch no longer applies: %s' % (ap.stderr or ap.stdout)[:200]}
             else:
-                r = sh('cd %s && ./check %s' % (HERE, prop), env=env, timeout=3600)
+                r = sh('cd %s && SUPP_VERIF_KEEP_EVIDENCE=1 ./check %s' % (HERE, prop), env=env, timeout=3600)
                 viol = [l for l in r.stdout.splitlines() if l.startswith('VIOLATION')]
                 failed = [l for l in r.stdout.splitlines() if l.startswith('FAILED')]
                 res = {'exit': r.returncode, 'violations': len(viol), 'reproduced_by_replay': sum('no-failing-input-found' not in l for l in viol),
